@@ -1,5 +1,5 @@
 import Rbacx.Generated
-import Rbacx.Run.C09_decide_translated
+import Rbacx.Proofs.DecideTranslated
 /-!
   Per-run obligation (C09): the EVALUATOR'S ACCESS PROGRAM from the source text.  The statements of `Guard._evaluate_core_async` between
   the env range and the gate range (the same statements as `Src.engine_cache_proto` of C08_translated) are translated once more by
@@ -19,7 +19,7 @@ import Rbacx.Run.C09_decide_translated
     run with.  In particular `rd policy_etag` lies AFTER the first lock block and BEFORE `cache.get`, `rd _compiled` after the lookup and
     before the second lock block — from the text, for every outcome.
 -/
-open Rbacx Rbacx.Generated Rbacx.PyP Rbacx.C09Decide
+open Rbacx Rbacx.Generated Rbacx.PyP
 
 namespace Rbacx.C09Program
 
@@ -56,6 +56,14 @@ theorem engine_eval_program_hit (ck cg : PyVal → Option PyVal) (cs : PyVal →
   unfold Src.engine_eval_program
   simp [isNotNone_truthy'', isNone_truthy'', hc, hk, hkt, hhit, hv]
 
+/-- the accesses of the translated `_decide_async` when the compiled function is present and returns (proved here from the generated text, so
+    that this obligation does not depend on `C09_decide_translated`, which says the same and much more) -/
+theorem decide_compiled_accesses (run dset dpol : PyVal → PyVal → Option PyVal) (fn p1 p2 p3 env v : PyVal)
+    (hfn : fn.isNone = false) (hrun : run fn env = some v) :
+    (Src.guard_decide_async run dset dpol fn p1 p2 p3 env).trace.map label = ["rd _compiled"] := by
+  unfold Src.guard_decide_async
+  simp [isNotNone_truthy'', hfn, hrun, label]
+
 /-- what `_cache_key` reads of `self`, by the text: the etag, once -/
 theorem cacheKeyReads_eq : Src.cacheKeyReads = ["policy_etag"] := by decide
 
@@ -68,7 +76,7 @@ theorem engine_eval_program_is_model_miss (ck cg : PyVal → Option PyVal) (cs :
     ((Src.engine_eval_program ck cg cs da cache g1 g2 ttl env).trace.map label).flatMap
         (expand Src.cacheKeyReads ((Src.guard_decide_async run dset dpol fn p1 p2 p3 env).trace.map label)) = Conc.expectedEvalMiss := by
   rw [engine_eval_program_miss ck cg cs da cache g1 g2 ttl env key raw hc hk hkt hmiss hd hg,
-      guard_decide_async_compiled_returns _ _ _ _ _ _ _ _ _ hfn hrun, cacheKeyReads_eq]
+      decide_compiled_accesses _ _ _ _ _ _ _ _ _ hfn hrun, cacheKeyReads_eq]
   simp [expand, label, Conc.expectedEvalMiss]
 
 theorem engine_eval_program_is_model_hit (ck cg : PyVal → Option PyVal) (cs : PyVal → PyVal → PyVal → Option PyVal) (da : PyVal → Option PyVal)
